@@ -26,7 +26,13 @@ def extra_eff(X):
         ((eff("assign", b, ("le", I(2), I(1))),), 1),                 # value simplifies to false
         ((eff("assign", b, ("lt", n, c(X))),), 0),                    # numeric-valued Boolean assignment
         ((eff("dec", n, ("-", c(X), n)),), 0),
+        ((eff("assign", e2(o2, X), TRUE),), 1),                       # binary predicate: argument order
+        ((eff("assign", e2(X, uprob.vT), TRUE, p(uprob.vT), uprob.VT),), 0),
     ]
+
+
+def e2(x, y):
+    return ("f", "e", x, y)
 
 
 def extra_cond(X):
@@ -36,6 +42,10 @@ def extra_cond(X):
         (("eq", ("+", n, I(1)), ("*", I(2), c(X))), 0),
         (("le", ("/", m, I(2)), ("r", 1, 4)), 0),
         (("iff", b, p(X)), 0),
+        (e2(X, o2), 1),                            # binary predicate: argument order
+        (NOT(e2(o1, X)), 0),
+        (("le", n, I(0)), 1),                      # boundary: true exactly at the initial value
+        (("lt", n, ("+", c(X), I(1))), 0),         # boundary for c(x)=0
     ]
 
 
@@ -106,7 +116,10 @@ def make(choices, keep_bounds=False, keep_r=False):
         if not keep_bounds and ts[0] in ("int", "real"):
             ts = (ts[0], None, None)
         fl.append((name, ts, sig, d))
+    # a binary predicate (U-PROB has only unary fluents): argument order matters in IO
+    fl.append(("e", ("bool",), (("x", T), ("y", T)), FALSE))
     ps["fluents"] = tuple(fl)
+    ps["init"] = tuple(ps["init"]) + ((e2(o1, o2), TRUE),)
     ps["ifuns"] = ()
     return ps
 
